@@ -962,7 +962,244 @@ func (b *bounds) indexOK(f *cfgx.Func, x *ast.IndexExpr, loops []ast.Stmt) (bool
 	if ok, why := b.sortLess(x, v); ok {
 		return true, why
 	}
+	if ok, why := b.clampedIndex(x, v); ok {
+		return true, why
+	}
 	return false, ""
+}
+
+// clampedIndex: r.F[v] after `if v > r.g() { v = r.g() }`, the only write of v, where the moq getter g is
+// `return len(r.F) - c` with 1 <= c <= the minimum length of the field F, and v was not negative before.
+func (b *bounds) clampedIndex(x *ast.IndexExpr, vo types.Object) (bool, string) {
+	v, _ := vo.(*types.Var)
+	sel, ok := ast.Unparen(x.X).(*ast.SelectorExpr)
+	if v == nil || !ok {
+		return false, ""
+	}
+	fld, _ := b.info.ObjectOf(sel.Sel).(*types.Var)
+	if fld == nil || !fld.IsField() {
+		return false, ""
+	}
+	// the clamp
+	var set *ast.AssignStmt
+	nset := 0
+	for i, at := range b.anodes[v] {
+		as, ok := at.(*ast.AssignStmt)
+		if ok && as.Tok == token.DEFINE && i == 0 {
+			continue // the definition of a local
+		}
+		if !ok || as.Tok != token.ASSIGN || len(as.Lhs) != 1 || len(as.Rhs) != 1 {
+			return false, ""
+		}
+		set = as
+		nset++
+	}
+	if nset != 1 {
+		return false, ""
+	}
+	var is *ast.IfStmt
+	ast.Inspect(b.fd.Body, func(n ast.Node) bool {
+		blk, ok := n.(*ast.BlockStmt)
+		if !ok {
+			return true
+		}
+		for _, st := range blk.List {
+			i, ok := st.(*ast.IfStmt)
+			if ok && i.Else == nil && i.Init == nil && len(i.Body.List) == 1 && i.Body.List[0] == ast.Stmt(set) && within(blk, x) && i.End() <= x.Pos() {
+				is = i
+			}
+		}
+		return true
+	})
+	if is == nil {
+		return false, ""
+	}
+	limit := set.Rhs[0]
+	cb, ok := ast.Unparen(is.Cond).(*ast.BinaryExpr)
+	if !ok {
+		return false, ""
+	}
+	isV := func(e ast.Expr) bool {
+		i, ok := ast.Unparen(e).(*ast.Ident)
+		return ok && b.info.ObjectOf(i) == v
+	}
+	switch {
+	case (cb.Op == token.GTR || cb.Op == token.GEQ) && isV(cb.X) && b.norm(cb.Y) == b.norm(limit):
+	case (cb.Op == token.LSS || cb.Op == token.LEQ) && isV(cb.Y) && b.norm(cb.X) == b.norm(limit):
+	default:
+		return false, ""
+	}
+	// the limit: recv.g() with g returning len(recv.F) - c
+	call, ok := ast.Unparen(limit).(*ast.CallExpr)
+	if !ok || len(call.Args) != 0 {
+		return false, ""
+	}
+	gsel, ok := ast.Unparen(call.Fun).(*ast.SelectorExpr)
+	if !ok || b.norm(gsel.X) != b.norm(sel.X) || b.assignedWithin(sel.X, b.fd) {
+		return false, ""
+	}
+	g, _ := typeutil.Callee(b.info, call).(*types.Func)
+	if g == nil || !b.prog.IsMoqPkg(g.Pkg()) {
+		return false, ""
+	}
+	d := b.prog.Decl(g.Origin())
+	if d == nil || d.Body == nil || d.Recv == nil || len(d.Recv.List) != 1 || len(d.Recv.List[0].Names) != 1 || len(d.Body.List) != 1 {
+		return false, ""
+	}
+	ret, ok := d.Body.List[0].(*ast.ReturnStmt)
+	if !ok || len(ret.Results) != 1 {
+		return false, ""
+	}
+	ginfo := b.prog.Info(g.Pkg())
+	sub, ok := ast.Unparen(ret.Results[0]).(*ast.BinaryExpr)
+	if !ok || sub.Op != token.SUB {
+		return false, ""
+	}
+	ctv := ginfo.Types[sub.Y]
+	if ctv.Value == nil {
+		return false, ""
+	}
+	c, isInt := constantInt64(ctv)
+	if !isInt || c < 1 {
+		return false, ""
+	}
+	lc, ok := ast.Unparen(sub.X).(*ast.CallExpr)
+	if !ok || len(lc.Args) != 1 {
+		return false, ""
+	}
+	if id, ok := ast.Unparen(lc.Fun).(*ast.Ident); !ok || id.Name != "len" {
+		return false, ""
+	} else if _, isB := ginfo.Uses[id].(*types.Builtin); !isB {
+		return false, ""
+	}
+	fs, ok := ast.Unparen(lc.Args[0]).(*ast.SelectorExpr)
+	if !ok || ginfo.ObjectOf(fs.Sel) != types.Object(fld) {
+		return false, ""
+	}
+	if rid, ok := ast.Unparen(fs.X).(*ast.Ident); !ok || ginfo.ObjectOf(rid) != ginfo.Defs[d.Recv.List[0].Names[0]] {
+		return false, ""
+	}
+	// never negative: the incoming value, and the limit (the field holds at least c elements)
+	n, why := fieldMinLen(b.prog, fld)
+	if n < c {
+		return false, ""
+	}
+	if b.isParam(v) {
+		if !b.paramNonNeg(v, 0) {
+			return false, ""
+		}
+	} else if len(b.assigns[v]) < 1 || b.assigns[v][0] == nil || !b.nonNeg(b.assigns[v][0], 0) {
+		return false, ""
+	}
+	return true, fmt.Sprintf("%s is clamped to %s, which is len(%s) - %d, just before; it was not negative before, and %s", v.Name(), types.ExprString(limit), types.ExprString(x.X), c, why)
+}
+
+// fieldMinLen: a lower bound of the length of a slice-typed field of a moq struct that holds in every
+// value of the struct the generator can make: every composite literal of the struct sets the field to a
+// value of at least that length, nothing else ever writes the field or takes its address, and no zero value
+// of the struct is made (new(T), a variable or a field of type T without a literal).
+func fieldMinLen(prog *load.Program, fld *types.Var) (int64, string) {
+	var owner *types.Named
+	for _, pk := range prog.MoqPackages() {
+		sc := pk.Types.Scope()
+		for _, nm := range sc.Names() {
+			tn, ok := sc.Lookup(nm).(*types.TypeName)
+			if !ok {
+				continue
+			}
+			if st, ok := tn.Type().Underlying().(*types.Struct); ok {
+				for i := 0; i < st.NumFields(); i++ {
+					if st.Field(i) == fld {
+						owner, _ = tn.Type().(*types.Named)
+					}
+				}
+			}
+		}
+	}
+	if owner == nil {
+		return 0, ""
+	}
+	isOwner := func(t types.Type) bool {
+		if t == nil {
+			return false
+		}
+		n, ok := types.Unalias(t).(*types.Named)
+		return ok && n.Origin() == owner.Origin()
+	}
+	min := int64(-1)
+	bad := false
+	nlit := 0
+	funcsOf(prog, func(pkgPath string, info *types.Info, fd *ast.FuncDecl, fn *types.Func) {
+		var fb *bounds
+		ast.Inspect(fd, func(n ast.Node) bool {
+			switch x := n.(type) {
+			case *ast.CompositeLit:
+				if !isOwner(info.TypeOf(x)) {
+					return true
+				}
+				nlit++
+				var val ast.Expr
+				for _, el := range x.Elts {
+					kv, ok := el.(*ast.KeyValueExpr)
+					if !ok {
+						bad = true
+						continue
+					}
+					if k, ok := kv.Key.(*ast.Ident); ok && info.ObjectOf(k) == types.Object(fld) {
+						val = kv.Value
+					}
+				}
+				if val == nil {
+					bad = true
+					return true
+				}
+				if fb == nil {
+					fb = newBounds(prog, info, fd)
+				}
+				n, _ := fb.minLen(val)
+				if min < 0 || n < min {
+					min = n
+				}
+			case *ast.AssignStmt:
+				for _, l := range x.Lhs {
+					e := ast.Unparen(l)
+					if sl, ok := e.(*ast.SelectorExpr); ok && info.ObjectOf(sl.Sel) == types.Object(fld) {
+						bad = true
+					}
+				}
+			case *ast.UnaryExpr:
+				if sl, ok := ast.Unparen(x.X).(*ast.SelectorExpr); ok && x.Op == token.AND && info.ObjectOf(sl.Sel) == types.Object(fld) {
+					bad = true
+				}
+			case *ast.CallExpr:
+				if id, ok := ast.Unparen(x.Fun).(*ast.Ident); ok && len(x.Args) >= 1 {
+					if bi, isB := info.Uses[id].(*types.Builtin); isB && (bi.Name() == "new" || bi.Name() == "make") {
+						t := info.TypeOf(x.Args[0])
+						if isOwner(t) {
+							bad = true
+						}
+						if t != nil {
+							switch u := t.Underlying().(type) {
+							case *types.Slice:
+								bad = bad || isOwner(u.Elem())
+							case *types.Map:
+								bad = bad || isOwner(u.Elem())
+							}
+						}
+					}
+				}
+			case *ast.ValueSpec:
+				if x.Type != nil && len(x.Values) == 0 && isOwner(info.TypeOf(x.Type)) {
+					bad = true
+				}
+			}
+			return true
+		})
+	})
+	if bad || nlit == 0 || min < 0 {
+		return 0, ""
+	}
+	return min, fmt.Sprintf("every %s the generator makes comes from a composite literal (%d) that gives %s at least %d element(s), and nothing else writes that field", owner.Obj().Name(), nlit, fld.Name(), min)
 }
 
 // counterFill: dst := make(T, len(src)); n := 0; for ... range src { dst[n] = ...; n++ }.
@@ -1383,7 +1620,55 @@ func (b *bounds) minLen(x ast.Expr) (int64, string) {
 	if !ok {
 		return 0, ""
 	}
+	// make(T, len(y)) or make(T, c): the local is never assigned again (single definition), index stores
+	// do not change its length
+	if id, ok := ast.Unparen(call.Fun).(*ast.Ident); ok && len(call.Args) >= 2 {
+		if bi, isB := b.info.Uses[id].(*types.Builtin); isB && bi.Name() == "make" {
+			if c, ok := b.constInt(call.Args[1]); ok {
+				return c, "made with that many elements"
+			}
+			if lc, ok := b.unfold(call.Args[1]).(*ast.CallExpr); ok && len(lc.Args) == 1 {
+				if lid, ok := ast.Unparen(lc.Fun).(*ast.Ident); ok && lid.Name == "len" {
+					if _, isB := b.info.Uses[lid].(*types.Builtin); isB {
+						if n, why := b.minLen(lc.Args[0]); n > 0 {
+							return n, "made with the length of " + types.ExprString(lc.Args[0]) + ": " + why
+						}
+					}
+				}
+			}
+			return 0, ""
+		}
+	}
 	fn, _ := typeutil.Callee(b.info, call).(*types.Func)
+	// the result of a moq function: the smallest of its returns
+	if fn != nil && b.prog.IsMoqPkg(fn.Pkg()) && minLenDepth < 3 {
+		if fd := b.prog.Decl(fn.Origin()); fd != nil && fd.Body != nil && fn.Type().(*types.Signature).Results().Len() == 1 {
+			minLenDepth++
+			defer func() { minLenDepth-- }()
+			cb := newBounds(b.prog, b.prog.Info(fn.Pkg()), fd)
+			min, nret := int64(-1), 0
+			ast.Inspect(fd.Body, func(n ast.Node) bool {
+				if _, isLit := n.(*ast.FuncLit); isLit {
+					return false
+				}
+				if rs, ok := n.(*ast.ReturnStmt); ok {
+					nret++
+					if len(rs.Results) != 1 {
+						min = 0
+						return true
+					}
+					if n, _ := cb.minLen(rs.Results[0]); min < 0 || n < min {
+						min = n
+					}
+				}
+				return true
+			})
+			if nret > 0 && min > 0 {
+				return min, fmt.Sprintf("every return of %s hands out at least %d element(s)", fn.Name(), min)
+			}
+		}
+		return 0, ""
+	}
 	if fn == nil || fn.Pkg() == nil || fn.Pkg().Path() != "strings" {
 		return 0, ""
 	}
@@ -1405,6 +1690,8 @@ func (b *bounds) minLen(x ast.Expr) (int64, string) {
 	}
 	return 0, ""
 }
+
+var minLenDepth int
 
 // stringSearch: the variable is the result of strings.Index & co. on the sliced string; returns the separator length.
 func (b *bounds) stringSearch(e ast.Expr, sliced ast.Expr) (types.Object, int64, bool) {
@@ -2097,6 +2384,21 @@ func (b *bounds) sliceMore(f *cfgx.Func, x *ast.SliceExpr) (bool, string) {
 			src := ast.Unparen(x.X)
 			if d, ok := b.defExpr(src); ok {
 				src = ast.Unparen(d)
+			} else if id, ok := src.(*ast.Ident); ok {
+				// `typ := T(); if flag { typ = "..." + typ[2:] }`: inside the only re-assignment (outside any
+				// loop) the variable still holds its definition
+				if v, ok := b.info.ObjectOf(id).(*types.Var); ok && len(b.assigns[v]) == 2 && b.assigns[v][0] != nil && within(b.anodes[v][1], x) && b.anodes[v][0].End() <= b.anodes[v][1].Pos() {
+					inLoop := false
+					for _, enc := range enclosing(b.fd.Body, x) {
+						switch enc.(type) {
+						case *ast.ForStmt, *ast.RangeStmt:
+							inLoop = true
+						}
+					}
+					if !inLoop {
+						src = ast.Unparen(b.assigns[v][0])
+					}
+				}
 			}
 			if call, ok := src.(*ast.CallExpr); ok {
 				if fn, ok := typeutil.Callee(b.info, call).(*types.Func); ok && b.prog.IsMoqPkg(fn.Pkg()) && fn.Name() == "TypeString" {
